@@ -34,7 +34,7 @@ def translate(ctx):
     except Exception as e:
         return ['cwrap2lean: %s: %s' % (type(e).__name__, e)]
     try:
-        ctx.table_base = cwrap2lean.gen_base_safety()
+        ctx.table_base = cwrap2lean.gen_base_safety(); cwrap2lean.gen_base_driver(ctx.table_base)
     except Exception as e:
         return ['cwrap2lean (base.c): %s: %s' % (type(e).__name__, e)]
     from corr import c19_lapack
